@@ -293,11 +293,17 @@ func (f *c31Fault) GetJustification(h common.Hash) ([]byte, error) {
 // bytes field from an absent one, so an empty body (or blob) that comes back
 // absent is the wire format's convention, not a refutation (counted).
 func c31CheckWire(c *vcommon.Case, resp *messages.BlockResponseMessage, wit map[string]any) {
+	c31CheckWireAs(c, resp, wit, "fault_family_wire_roundtrips")
+}
+
+// c31CheckWireAs is c31CheckWire counting its round trips under the given name
+// (the fault-free serving groups keep their own counter and floors).
+func c31CheckWireAs(c *vcommon.Case, resp *messages.BlockResponseMessage, wit map[string]any, counter string) {
 	if resp == nil {
 		return
 	}
 	c.Eval(1)
-	c.Count("fault_family_wire_roundtrips", 1)
+	c.Count(counter, 1)
 	var (
 		enc      []byte
 		err      error
